@@ -120,10 +120,11 @@ def programs(tier, seed):
         out += d2[:6000]
         nrand = 300
     else:
-        d2 = [p for p, e in progs.typed(d2)]
-        out += d2
-        out += list(progs.depth3_priority(d2))[:150000]
-        nrand = 5000
+        d2 = list(d2); rng.shuffle(d2)
+        out += d2[:150000]
+        d3 = list(progs.depth3_priority(d2[:60000])); rng.shuffle(d3)
+        out += d3[:40000]
+        nrand = 10000
     for r in range(nrand):
         out.append(('random', seed, r))
     seen = set(); uniq = []
@@ -159,7 +160,7 @@ def main(argv=None):
                        'termination: observed under a %ds watchdog per program; no claim outside the family' % WATCHDOG]
     P = programs(args.tier, args.seed)
     if args.only: P = [p for p in P if p[0] != 'random' and args.only in progs.show(p)]
-    run.bounds = dict(programs=len(P), axis_lengths='1..4', depth='exhaustive depth<=1 over the constructor table, depth 2 %s, random depth<=6' % ('sampled' if args.tier == 'quick' else 'exhaustive'),
+    run.bounds = dict(programs=len(P), axis_lengths='1..4', depth='exhaustive depth<=1 over the constructor table, depth 2 %s, random depth<=6' % ('6000 sampled' if args.tier == 'quick' else '150000 sampled + 40000 depth-3 over the simplifier priority classes'),
                       max_paths=8, solver_timeout_ms=10000, watchdog_s=WATCHDOG, margin='1e-9 relative on box [-8,8] only after an exact sat')
     status = run.counters
     with harness.FuncTrace() as ft:
